@@ -58,7 +58,7 @@ COOKIE_FORMS = [
 ]
 
 
-def gen_store_text(rng, codec, allow_empty=True):
+def gen_store_text(rng, codec, allow_empty=True, nls=("lf", "crlf", "cr")):
     cookie, cls, enc = codec
     for _ in range(20):
         n = rng.choice([0, 0, 1, 2, 3, 5, 8]) if allow_empty else rng.choice([1, 2, 3, 5])
@@ -80,27 +80,30 @@ def gen_store_text(rng, codec, allow_empty=True):
                 continue
         except (UnicodeError, LookupError):
             continue
-        if not _bytes_declare(text, enc, cookie):
+        if not _bytes_declare(text, enc, cookie, nls):
             continue
         return text
     return ("# -*- coding: %s -*-\n" % cookie) if cookie else "x = 1\n"
 
 
-def _bytes_declare(text, enc, cookie):
-    """The *bytes* of the file must exhibit the coding line (a stateful 7-bit
-    codec may escape characters of the cookie line itself, e.g. a form feed in
-    UTF-7; then neither Python nor rope can see the declaration)."""
-    for nl in ("\n", "\r\n", "\r"):
+def _bytes_declare(text, enc, cookie, nls=("lf", "crlf", "cr")):
+    """The *bytes* of the file must declare what the *text* declares, under every
+    newline convention (a stateful 7-bit codec may escape characters of the
+    cookie line itself, e.g. a form feed in UTF-7; then the declaration seen in
+    the text is invisible in the bytes)."""
+    for nl in [kernel.NL.get(x, x) for x in nls]:
+        conv = text.replace("\n", nl)
         try:
-            head = text.replace("\n", nl).encode(enc).decode("latin-1")
+            head = conv.encode(enc).decode("latin-1")
         except (UnicodeError, LookupError):
             return False
-        d = declared_encoding(head)
-        if (d or None) != (cookie or None):
-            # CR-only: a cookie on the second line is invisible by design; that is fine as long
-            # as the default (utf-8) then is the codec in use
-            if nl == "\r" and d is None and enc.lower().replace("_", "-") in ("utf-8", "utf8"):
-                continue
+        seen_in_text = declared_encoding(conv)
+        if declared_encoding(head) != seen_in_text:
+            return False
+        # what is declared (as Python sees it under this convention) must be the codec in use
+        eff = (seen_in_text or "utf-8").lower().replace("_", "-")
+        want = enc.lower().replace("_", "-")
+        if eff != want and not ({eff, want} <= {"utf-8", "utf8"}) and (seen_in_text or "") != (cookie or ""):
             return False
     return True
 
@@ -113,7 +116,7 @@ def model_decode(data: bytes) -> str:
     return text.replace("\r\n", "\n").replace("\r", "\n")
 
 
-def edit_of(rng, text, codec):
+def edit_of(rng, text, codec, nls=("lf", "crlf", "cr")):
     """A partial edit: one line inserted, deleted or replaced; everything else
     (cookie line included) untouched."""
     cookie, cls, enc = codec
@@ -144,7 +147,7 @@ def edit_of(rng, text, codec):
             return fallback
     except (UnicodeError, LookupError):
         return fallback
-    if not _bytes_declare(new, enc, cookie):
+    if not _bytes_declare(new, enc, cookie, nls):
         return fallback
     return new if new != text else fallback
 
@@ -210,10 +213,11 @@ class ByteStoreEngine(Engine):
             for i in range(swarm["files"]):
                 codec = rng.choice(CODECS)
                 nl = rng.choice(["lf", "crlf", "cr"])
-                text = gen_store_text(rng, codec)
+                text = gen_store_text(rng, codec, nls=(nl,))
                 p = "f%d.py" % i if rng.random() < 0.7 else "f%d.txt" % i
                 init.append({"p": p, "text": text, "nl": nl, "enc": codec[2]})
                 codecs[p] = list(codec)
+        nls = {e["p"]: e.get("nl", "lf") for e in init if not e.get("dir")}
         files = [e["p"] for e in init if not e.get("dir")]
         texts = {e["p"]: e["text"] for e in init if not e.get("dir")}
         steps = []
@@ -227,24 +231,24 @@ class ByteStoreEngine(Engine):
             if k in ("read", "same_write", "same_do"):
                 steps.append({"op": k, "path": p, "held": held})
             elif k == "edit":
-                new = edit_of(rng, texts[p], tuple(codecs[p])) if rng.random() < 0.8 else gen_store_text(rng, tuple(codecs[p]))
+                new = edit_of(rng, texts[p], tuple(codecs[p]), (nls.get(p, "lf"),)) if rng.random() < 0.8 else gen_store_text(rng, tuple(codecs[p]), nls=(nls.get(p, "lf"),))
                 steps.append({"op": "edit", "path": p, "text": new, "held": held, "id": nid})
                 texts[p] = new
             elif k == "file_write":
-                new = edit_of(rng, texts[p], tuple(codecs[p])) if rng.random() < 0.7 else gen_store_text(rng, tuple(codecs[p]))
+                new = edit_of(rng, texts[p], tuple(codecs[p]), (nls.get(p, "lf"),)) if rng.random() < 0.7 else gen_store_text(rng, tuple(codecs[p]), nls=(nls.get(p, "lf"),))
                 steps.append({"op": "file_write", "path": p, "text": new, "held": held, "id": nid})
                 texts[p] = new
             elif k == "recode":
                 # an edit that changes the file's own coding line (adds, removes or replaces it)
                 ncodec = rng.choice(CODECS)
-                ntext = gen_store_text(rng, ncodec, allow_empty=False)
+                ntext = gen_store_text(rng, ncodec, allow_empty=False, nls=(nls.get(p, "lf"),))
                 steps.append({"op": "edit", "path": p, "text": ntext, "held": held, "id": nid, "recode": True})
                 codecs[p] = list(ncodec)
                 texts[p] = ntext
             elif k == "bytes_write":
                 # contents handed over as bytes are written verbatim (possibly another newline convention)
                 codec = tuple(codecs[p])
-                t2 = gen_store_text(rng, codec, allow_empty=False)
+                t2 = gen_store_text(rng, codec, allow_empty=False)  # (all conventions: the bytes write picks its own)
                 steps.append({"op": "bytes_write", "path": p, "held": held, "text": t2, "nl": rng.choice(["lf", "crlf", "cr"]),
                               "enc": codec[2], "id": nid})
                 texts[p] = t2
@@ -254,7 +258,10 @@ class ByteStoreEngine(Engine):
             elif k in ("undo", "redo", "reopen"):
                 steps.append({"op": k})
             elif k == "flip":
-                steps.append({"op": "flip", "path": p, "to": rng.choice(["lf", "crlf", "cr"]), "validate": rng.random() < 0.8})
+                to = rng.choice(["lf", "crlf", "cr"])
+                steps.append({"op": "flip", "path": p, "to": to, "validate": rng.random() < 0.8})
+                if _bytes_declare(texts[p], codecs[p][2], codecs[p][0], (to,)):
+                    nls[p] = to  # (the flip is skipped at execution if it would hide the coding line)
             elif k == "fail":
                 others = [q for q in files if q != p]
                 edits = [[p, edit_of(rng, texts[p], tuple(codecs[p]))]]
@@ -269,8 +276,9 @@ class ByteStoreEngine(Engine):
             elif k == "create":
                 codec = rng.choice(CODECS)
                 q = "n%d.py" % nid
-                text = gen_store_text(rng, codec)
+                text = gen_store_text(rng, codec, nls=("lf",))
                 steps.append({"op": "create", "path": q, "text": text, "id": nid})
+                nls[q] = "lf"
                 files.append(q)
                 codecs[q] = list(codec)
                 texts[q] = text
